@@ -2,7 +2,7 @@
 # try_seed.sh <seed dir with patch.diff demo.py meta.json> [--inplace]
 # 1. confirms the mutant (demo passes on pristine, fails when patched, suite still passes)
 # 2. runs the property's quick check against the patched tree and prints what it reported
-D="$1"; MODE="$2"
+D="$(realpath "$1")"; MODE="$2"
 PROP=$(python3 -c "import json,sys; print(json.load(open('$D/meta.json'))['property'])")
 mkdir -p /root/dev          # scratch outside /repo and /verif
 WT=/root/dev/seedcheck
